@@ -58,7 +58,12 @@ def members_of(spec: str, meta):
         m = {"name": name, "kind": kind, "data": data, "mtime": T0 + 10_000_000 * i, "ctime": T0 - 5 - i, "atime": T0 + 77 + i,
              "attr": ref7z.unix_attr("dir" if k == "D" else ("symlink" if k == "L" else "file"), 0o755 if k == "D" else 0o640)}
         for fld in meta.get(i, ()):
-            m[fld] = None
+            if fld == "winattr":
+                # attribute word as Windows 7-Zip writes it: no UNIX extension, DIRECTORY / ARCHIVE / READONLY bits only
+                if k != "L":
+                    m["attr"] = {"D": 0x10, "F": 0x20, "Z": 0x21, "E": 0x01}[k]
+            else:
+                m[fld] = None
         ms.append(m)
     return ms
 
@@ -66,7 +71,7 @@ def members_of(spec: str, meta):
 CHAINS = [["LZMA2"], ["COPY"], ["LZMA"], ["BZIP2"], ["DEFLATE"], ["DEFLATE64"], ["ZSTD"], ["PPMD"], ["BROTLI"], ["X86", "LZMA"], ["X86", "LZMA2"],
           ["DELTA", "LZMA2"], ["ARM", "COPY"], ["SPARC", "BZIP2"], ["LZMA2", "AES"], ["COPY", "AES"], ["AES"], ["X86", "DEFLATE", "AES"]]
 HEADERS = ["raw", "lzma", "lzma2", "copy", "aes", "lzma2+aes"]
-METAS = [None, ("mtime",), ("attr",), ("ctime", "atime"), ("mtime", "attr", "ctime", "atime")]
+METAS = [None, ("mtime",), ("attr",), ("ctime", "atime"), ("mtime", "attr", "ctime", "atime"), ("winattr",)]
 
 
 def build_case(ch: explore.Chooser, spec: str):
@@ -344,7 +349,7 @@ def main(tier="quick", seed=0, only=None):
             "for every list, and every PAIR of deviations for the richer lists, over: every composition into folders, 18 coder chains, second "
             "folder with another chain, a file-less folder (NumUnpackStream 0) first / in the middle / last, NumUnpackStream always written, CRC at substream/folder/none/both/every-other-substream, packed CRCs (all / every other stream), pack gap 1/7/4096, "
             "kDummy 0..7, EmptyFile always, no all-defined shortcut, header raw/LZMA/LZMA2/COPY/AES/LZMA2+AES with/without CRC, reverse coder "
-            "order, AES IV 8/16/1 bytes and salt, undefined mtime/attributes/ctime+atime/all per entry, trailing bytes; plus every third-party "
+            "order, AES IV 8/16/1 bytes and salt, undefined mtime/attributes/ctime+atime/all per entry, Windows-style attribute words (no UNIX extension: DIRECTORY / ARCHIVE / READONLY bits) per entry, trailing bytes; plus every third-party "
             "fixture. Oracle: names, is_directory/is_symlink, sizes, mtime/ctime/atime, attributes, extractall(factory) bytes and on-disk "
             "kinds equal the logical archive handed to ref7z (fixtures: equal ref7z.read). ref7z re-reads each archive first (self-check)."
         ),
